@@ -19,7 +19,7 @@ type NumSpec struct {
 }
 
 type C18Case struct {
-	Class string    `json:"class"` // "exact", "general", "fullrange", "intfamily"
+	Class string    `json:"class"` // "exact", "general", "fullrange", "intfamily", "overflow"
 	Elems []NumSpec `json:"elems"`
 	Route int       `json:"route,omitempty"` // construction route (see listByRoute)
 	Muts  []NumMut  `json:"muts,omitempty"`  // mutations after the first evaluation; everything is evaluated again after each
@@ -32,7 +32,7 @@ type NumMut struct {
 }
 
 func GenC18(t *rapid.T) *C18Case {
-	c := &C18Case{Class: []string{"exact", "general", "fullrange", "intfamily"}[pick(t, "class", 30, 30, 15, 25)], Route: drawInt(t, 0, numListRoutes-1, "route")}
+	c := &C18Case{Class: []string{"exact", "general", "fullrange", "intfamily", "overflow"}[pick(t, "class", 28, 28, 14, 23, 7)], Route: drawInt(t, 0, numListRoutes-1, "route")}
 	n := []int{0, 1, 1, 2, 2, 3, 4, 5, 6, 8, 10, 15, 20, 64, 65, 100}[drawIdx(t, 16, "n")]
 	if oneIn(t, 40, "huge") {
 		n = []int{255, 256, 257, 258, 259, 1001}[drawIdx(t, 6, "hugen")] // block-wise / chunked folds
@@ -50,6 +50,9 @@ func GenC18(t *rapid.T) *C18Case {
 	}
 	if c.Class == "exact" && n > 10 {
 		n = 10
+	}
+	if c.Class == "overflow" {
+		n = drawInt(t, 2, 8, "novf")
 	}
 	one := func() {
 		isInt := drawInt(t, 0, 2, "isint") > 0
@@ -94,6 +97,22 @@ func GenC18(t *rapid.T) *C18Case {
 					x = -x
 				}
 				c.Elems = append(c.Elems, NumSpec{F: math.Float64bits(apply(x))})
+			}
+		case "overflow":
+			// factors of magnitude >= 1 only (no partial product can underflow in any evaluation order),
+			// several of them huge, so that the product leaves the float64 range part-way through the list
+			if isInt && drawBool(t, "smallfactor") {
+				v := drawInt(t, 1, 1000, "i")
+				if drawBool(t, "neg") {
+					v = -v
+				}
+				c.Elems = append(c.Elems, NumSpec{IsInt: true, I: int64(v)})
+			} else {
+				x := []float64{1e200, 1e300, math.MaxFloat64, 1e154, 1e155, 2, 1.5, 1, 1e100, 3e307}[drawIdx(t, 10, "big")]
+				if drawBool(t, "neg") {
+					x = -x
+				}
+				c.Elems = append(c.Elems, NumSpec{F: math.Float64bits(x)})
 			}
 		case "fullrange":
 			if isInt {
@@ -366,6 +385,29 @@ func verifyAggregates(c *C18Case, elemsSpec []NumSpec, l at.List, st *Stats) (at
 				}
 			}
 		}
+		if c.Class == "overflow" && n > 0 {
+			// every factor has magnitude >= 1, so in any evaluation order the partial products grow
+			// monotonically: a product far beyond the float64 range is an infinity whose sign is the
+			// parity of the negative factors; one comfortably inside the range obeys the rounding bound
+			exactProd := new(big.Float).SetPrec(4000).SetInt64(1)
+			for _, x := range xs {
+				exactProd.Mul(exactProd, new(big.Float).SetPrec(4000).SetFloat64(x))
+			}
+			gotProd := l.Prod()
+			switch exp := exactProd.MantExp(nil); {
+			case exp > 1030:
+				if want := math.Inf(exactProd.Sign()); gotProd != want {
+					return nil, errf("Prod = %v, the product of the elements is beyond the float64 range with sign %+d (expected %v) on %s", gotProd, exactProd.Sign(), want, before.Tree.Show())
+				}
+				st.Count("prod_overflow")
+			case exp < 1020:
+				prodF, _ := exactProd.Float64()
+				tolP := 1.01 * float64(n+1) * math.Ldexp(1, -53) * math.Abs(prodF)
+				if d := new(big.Float).Sub(new(big.Float).SetPrec(4000).SetFloat64(gotProd), exactProd); math.IsInf(gotProd, 0) || gotProd != gotProd || bigAbs(d) > tolP {
+					return nil, errf("Prod = %v, the exact product is %v on %s", gotProd, prodF, before.Tree.Show())
+				}
+			}
+		}
 		if n == 0 {
 			if l.Sum() != 0 || l.Prod() != 1 {
 				return nil, errf("on an empty list Sum = %v (want 0) and Prod = %v (want 1)", l.Sum(), l.Prod())
@@ -417,6 +459,6 @@ func bigAbs(d *big.Float) float64 {
 
 func init() {
 	Register("C18",
-		"numeric lists of 0-20 (occasionally 64-100, then with small magnitudes) elements, built through drawn construction routes, in four classes: exact (small ints and dyadic fractions with <= 4 significant bits, <= 10 elements, so every partial sum/product is exactly representable), general (ints up to 2^40 and floats m*2^e with |e| <= 20, all-negative / all-positive / mixed sign, ints and floats in every order), fullrange (any int; +-MaxFloat64, +-1e300, +-9.3e18, 1e19, subnormals, +-0; Min/Max only) and intfamily (ints interleaved with floats, nil, bools, strings, lists, objects, or no ints at all). Oracle: Sum/Prod/Avg equal the math/big fold rounded once (exact class) or lie within (n+1)*2^-53*sum|x| resp. relative (n+1)*2^-53 of it (general class); Min/Max equal the float64 fold exactly in all classes; IntSum/IntProd equal the wrapping Go fold over exactly the int elements, IntMin/IntMax exact; empty: 0 / 1 / 0; list unchanged. Non-trivial = >= 2 qualifying elements with a negative value, an int/float mixture, or interleaved non-ints. Distinct = distinct FNV-64a hash of the case JSON.",
+		"numeric lists of 0-20 (occasionally 64-100, then with small magnitudes) elements, built through drawn construction routes, in four classes: exact (small ints and dyadic fractions with <= 4 significant bits, <= 10 elements, so every partial sum/product is exactly representable), general (ints up to 2^40 and floats m*2^e with |e| <= 20, all-negative / all-positive / mixed sign, ints and floats in every order), fullrange (any int; +-MaxFloat64, +-1e300, +-9.3e18, 1e19, subnormals, +-0; Min/Max only) and intfamily (ints interleaved with floats, nil, bools, strings, lists, objects, or no ints at all). and overflow (2-8 factors of magnitude >= 1, several near 1e154-1e308: Prod must be the infinity whose sign is the parity of the negative factors when the exact product exceeds 2^1030, and obey the rounding bound when it stays below 2^1020). Oracle: Sum/Prod/Avg equal the math/big fold rounded once (exact class) or lie within (n+1)*2^-53*sum|x| resp. relative (n+1)*2^-53 of it (general class); Min/Max equal the float64 fold exactly in all classes; IntSum/IntProd equal the wrapping Go fold over exactly the int elements, IntMin/IntMax exact; empty: 0 / 1 / 0; list unchanged. Non-trivial = >= 2 qualifying elements with a negative value, an int/float mixture, or interleaved non-ints. Distinct = distinct FNV-64a hash of the case JSON.",
 		GenC18, CheckC18)
 }
